@@ -453,3 +453,6 @@ Proof.
          | |- _ = _ => vm_compute; reflexivity
          end.
 Qed.
+
+Lemma state_changed_paused_while_paused o w : pstate w = Paused -> on_state_changed o Paused w = (Ok tt, w).
+Proof. intros H. unfold on_state_changed, bind, get. rewrite H. reflexivity. Qed.
